@@ -270,6 +270,8 @@ func errClass(err error) string {
 		return "err notMap"
 	case strings.Contains(m, "Failed to convert list slice"):
 		return "err listConv"
+	case strings.HasPrefix(m, "malformed list"):
+		return "err malformed"
 	}
 	return "err other:" + m
 }
